@@ -83,7 +83,9 @@ for name, edits in MUTANTS.items():
     res = C.Result("C15", tier, "model_checking")
     res.known = []
     tally = c15.Tally(res)
-    c15.scripted(res, tier, pred, tally)
+    tracer = c15.Tracer("mut-trace")
+    c15.scripted(res, tier, pred, tally, tracer)
+    c15.validate_trace(res, tracer, tally)
     tally.flush()
     kinds = collections.Counter(k.split(":")[0] for k, _ in res.violations)
     ex = {}
